@@ -86,6 +86,8 @@ class MeiParser(object):
             []
         )  # to be filled when we encounter barlines and process in the end
         self.endings = []
+        # end of the layers of the current staff and measure that are already read
+        self._layers_end = None
 
     def create_parts(self):
         # handle main scoreDef info: create the part list
@@ -895,14 +897,21 @@ class MeiParser(object):
         except (
             KeyError
         ):  # if the space don't have a duration, move to the end of the measure
-            # find closest time signature
-            last_ts = list(part.iter_all(cls=score.TimeSignature))[-1]
-            # find divs per measure
-            ppq = part.quarter_duration_map(position)
-            parts_per_measure = int(ppq * 4 * last_ts.beats / last_ts.beat_type)
-            # find divs elapsed since last barline
-            last_barline = list(part.iter_all(cls=pt.score.Measure))[-1]
-            duration = position - last_barline.start.t
+            if self._layers_end is not None:
+                # the measure ends where the layers of the staff read before end
+                # (the measure may be incomplete, e.g. an anacrusis)
+                measure_end = self._layers_end
+            else:
+                # find closest time signature
+                last_ts = list(part.iter_all(cls=score.TimeSignature))[-1]
+                # find divs per measure
+                ppq = part.quarter_duration_map(position)
+                parts_per_measure = int(ppq * 4 * last_ts.beats / last_ts.beat_type)
+                # find the end of the measure that starts at the last barline
+                last_barline = list(part.iter_all(cls=pt.score.Measure))[-1]
+                measure_end = last_barline.start.t + parts_per_measure
+            # find divs left until the end of the measure
+            duration = max(measure_end - position, 0)
 
         return position + duration
 
@@ -1014,6 +1023,8 @@ class MeiParser(object):
         layers_el = staff_el.findall(self._ns_name("layer"))
         end_positions = []
         for i_layer, layer_el in enumerate(layers_el):
+            # where the layers read so far end (for spaces without duration)
+            self._layers_end = max(end_positions) if end_positions else None
             end_positions.append(
                 self._handle_layer_in_staff_in_measure(
                     layer_el,
@@ -1023,6 +1034,7 @@ class MeiParser(object):
                     part,
                 )
             )
+        self._layers_end = None
         # check if layers have equal duration (bad encoding, but it often happens)
         if not all([e == end_positions[0] for e in end_positions]):
             warnings.warn(
